@@ -295,6 +295,21 @@ def check(res, tier, replay=None):
         tabs = emu_props.load_tables()
         n = 450 if tier == "quick" else 6000
         cases = [emu_props.gen_mixed(r, res, tabs, p_illegal=0.08, maxlen=50) for _ in range(n)]
+        # long runs: the same kind of history stretched over 10^15 .. 9*10^18 ns (the duration field of the
+        # .prv header is rewritten at close and must not run into the first record)
+        for span in (10**15, 2 * 10**15, 10**17, 9 * 10**18):
+            for _ in range(2 if tier == "quick" else 10):
+                sysd, events, exp, why = emu_props.gen_mixed(r, res, tabs, p_illegal=0.0, maxlen=30)
+                firsts = {}
+                for i, ev in enumerate(events):
+                    firsts.setdefault(ev[0], i)
+                # stretch only after every stream has started (the clock gate compares the first clocks)
+                k = max(max(firsts.values(), default=0) + 1, len(events) // 2)
+                if len(events) >= 2 and k < len(events) and len(firsts) == len(sysd.threads):
+                    t0 = events[0][1]
+                    events = [ev if i < k else (ev[0], ev[1] + span - t0) + tuple(ev[2:]) for i, ev in enumerate(events)]
+                    res.dist("case:long-run")
+                cases.append((sysd, events, exp, why))
         text = TextTie(res)
         tm = text_models(cases)
 
